@@ -122,7 +122,9 @@ GROUP = dict(
         "quick": [_M("MCDispatch_n1_2.cfg"), _M("MCDispatch_n1_3.cfg"), _M("MCDispatch_n0_3.cfg", may_be_zero=("Reroute",)),
                   _M("MCDispatch_n2_2.cfg"), _M("MCDispatch_nl_3.cfg", may_be_zero=("Reroute",)),
                   _M("MCDispatch_live.cfg", coverage=False),
-                  dict(cfg="MCDispatchScen_2.cfg", spec="MCDispatchScen.tla", emit=True, max_emit=150, coverage=False)],
+                  dict(cfg="MCDispatchScen_2.cfg", spec="MCDispatchScen.tla", emit=True, max_emit=110, coverage=False),
+                  # three trains on plain sidings, every direction word and tie / sub-headway gap (finishing order != index order)
+                  dict(cfg="MCDispatchScen_3s.cfg", spec="MCDispatchScen.tla", emit=True, max_emit=140, coverage=False)],
         "thorough": [_M("MCDispatch_n1_2.cfg"), _M("MCDispatch_n1_3.cfg"), _M("MCDispatch_n1_3tie.cfg"),
                      _M("MCDispatch_n1_3same.cfg"), _M("MCDispatch_n1_eew.cfg"), _M("MCDispatch_n0_3.cfg", may_be_zero=("Reroute",)),
                      _M("MCDispatch_n2_2.cfg"), _M("MCDispatch_n2_3.cfg", workers=16, timeout=1800),
